@@ -362,8 +362,18 @@ def _decorate_namespace_function(
                 bases_have_func = True
 
                 # Check if there is a checker function in the base class
-                base_func = getattr(base, key)
-                base_contract_checker = icontract._checkers.find_checker(func=base_func)
+                try:
+                    base_func = getattr(base, key)
+                except AttributeError:
+                    # The base provides the member as a descriptor which is available only on the instances;
+                    # there is no function, and thus no contracts, to inherit from.
+                    base_func = None
+
+                base_contract_checker = (
+                    icontract._checkers.find_checker(func=base_func)
+                    if base_func is not None
+                    else None
+                )
 
                 # Ignore functions which don't have preconditions or postconditions
                 if base_contract_checker is not None:
@@ -506,7 +516,12 @@ def _decorate_namespace_property(
 
         for base in _providing_bases(bases=bases, key=key):
             if _base_provides(base, key):
-                base_property = getattr(base, key)
+                try:
+                    base_property = getattr(base, key)
+                except AttributeError:
+                    # The base provides the member as a descriptor which is available only on the instances.
+                    base_property = None
+
                 if not isinstance(base_property, property):
                     # The property overrides a plain class attribute or a method of the base; there are
                     # no contracts of an accessor to be inherited from this base.
